@@ -471,15 +471,20 @@ def doWrites : List (Nat × Nat) → List E64 → List Nat → M Unit
       | _, .err e => (d2, .err e)
       | .ok (), .ok () => (d2, .ok ())
 
+/-- the validation prologue of `__write_at`: `some e` = rejected with `Err` -/
+def writeCheck (i : Info) (off len : Nat) : Option Err :=
+  if ¬ (off + len < 2^64 ∧ off + len ≤ i.vsize) then some .beyondEnd else
+  if len % i.bs ≠ 0 then some .unaligned else
+  if off % i.bs ≠ 0 then some .unaligned else
+  if i.readOnly then some .readOnly else none
+
 /-- `__write_at(buf, offset)`; `toks` are the sector tokens of `buf`
     (`len = 512 * toks.length`; unaligned lengths are passed as `len`). -/
 def writeAt (off len : Nat) (toks : List Nat) : M Unit := fun d =>
   let i := d.info
-  let bs := i.bs
-  if ¬ (off + len < 2^64 ∧ off + len ≤ i.vsize) then (d, .err .beyondEnd) else
-  if len % bs ≠ 0 then (d, .err .unaligned) else
-  if off % bs ≠ 0 then (d, .err .unaligned) else
-  if i.readOnly then (d, .err .readOnly) else
+  match writeCheck i off len with
+  | some e => (d, .err e)
+  | none =>
   if len = 0 then (d, .ok ()) else
   let single := off / i.clusterSize = (off + len - 1) / i.clusterSize
   if single then
@@ -531,22 +536,35 @@ def doReads (d : Dev) : List (Nat × Nat) → Outcome (List Nat)
     | .err e, _ => .err e
     | _, .err e => .err e
 
+/-- outcome of the validation/clamp prologue of `__read_at` (top device) -/
+inductive ReadPlan where
+  | reject (e : Err)
+  | empty                      -- `Ok(0)`
+  | run (clen : Nat)           -- read `clen` bytes (clamped, block multiple)
+  deriving Repr, DecidableEq
+
+/-- the prologue of `__read_at` for a device that is not a backing image -/
+def readPlan (i : Info) (off len : Nat) : ReadPlan :=
+  if off ≥ i.vsize then .reject .eof else
+  if len = 0 then .empty else
+  if len % i.bs ≠ 0 then .reject .unaligned else
+  if off % i.bs ≠ 0 then .reject .unaligned else
+  .run (if len > i.vsize - off then (i.vsize - off) / i.bs * i.bs else len)
+
 /-- `__read_at(buf, offset)` on the top device: returns the byte count and the
     sector tokens of the whole buffer (`poison` where the buffer is not touched). -/
 def readAt (d : Dev) (off len : Nat) : Outcome (Nat × List Nat) :=
   let i := d.info
-  let bs := i.bs
-  if off ≥ i.vsize then .err .eof else
-  if len = 0 then .ok (0, []) else
-  if len % bs ≠ 0 then .err .unaligned else
-  if off % bs ≠ 0 then .err .unaligned else
-  let clen := if off + len > i.vsize then (i.vsize - off) / bs * bs else len
-  if clen = 0 then .ok (0, List.replicate (len / 512) poison) else
-  let n := (clen + i.clusterSize - 1) / i.clusterSize + 2
-  match doReads d (pieces i.clusterSize n off clen) with
-  | .ok toks => .ok (clen, toks ++ List.replicate ((len - clen) / 512) poison)
-  | .err e => .err e
-  | .panic p => .panic p
+  match readPlan i off len with
+  | .reject e => .err e
+  | .empty => .ok (0, [])
+  | .run clen =>
+    if clen = 0 then .ok (0, List.replicate (len / 512) poison) else
+    let n := (clen + i.clusterSize - 1) / i.clusterSize + 2
+    match doReads d (pieces i.clusterSize n off clen) with
+    | .ok toks => .ok (clen, toks ++ List.replicate ((len - clen) / 512) poison)
+    | .err e => .err e
+    | .panic p => .panic p
 
 /-! ### discard (dev/discard.rs) -/
 
@@ -580,21 +598,31 @@ def discardLoop (stop : Nat) : Nat → Nat → M Unit
     | (d1, .err e) => (d1, .err e)
     | (d1, .panic p) => (d1, .panic p)
 
+/-- end of the discarded byte range: `saturating_add`, clipped to the virtual size -/
+def clipEnd (vsize off len : Nat) : Nat := min (min (off + len) (2^64 - 1)) vsize
+
+/-- the clip / round-inward prologue of `discard`: `ok none` = nothing to do,
+    `ok (some (start, stop))` = whole clusters `[start, stop)` -/
+def discardRange (i : Info) (off len : Nat) : Outcome (Option (Nat × Nat)) :=
+  if len = 0 then .ok none else
+  let e := clipEnd i.vsize off len
+  if off ≥ e then .ok none else
+  match i.clusterRoundUp off with
+  | .panic p => .panic p
+  | .err x => .err x
+  | .ok start =>
+    let stop := i.clusterRoundDown e
+    if start ≥ stop then .ok none else .ok (some (start, stop))
+
 /-- `discard(virtual_offset, len)` -/
 def discard (off len : Nat) : M Unit := fun d =>
   let i := d.info
   if i.readOnly then (d, .err .readOnly) else
-  if len = 0 then (d, .ok ()) else
-  let endU := min (off + len) (2^64 - 1)
-  let e := min endU i.vsize
-  if off ≥ e then (d, .ok ()) else
-  match i.clusterRoundUp off with
+  match discardRange i off len with
   | .panic p => (d, .panic p)
   | .err x => (d, .err x)
-  | .ok start =>
-    let stop := i.clusterRoundDown e
-    if start ≥ stop then (d, .ok ()) else
-    discardLoop stop ((stop - start) / i.clusterSize + 1) start d
+  | .ok none => (d, .ok ())
+  | .ok (some (start, stop)) => discardLoop stop ((stop - start) / i.clusterSize + 1) start d
 
 /-! ### flush -/
 
